@@ -128,11 +128,16 @@ def replay_env_behaviour(prop, rp):
 
 def c13(run):
     t = run.tier == "thorough"
-    run.rule = ("MC_Env: every reachable set of live handles (NV=2, <=2 handles; thorough also <=3) x every operation incl. fp/model/"
+    run.rule = ("MC_Env: every reachable set of live handles (NV=2, <=2 handles; thorough also NV=3 with 1 handle) x every operation incl. fp/model/"
                 "retain/clean/drop, all invariants; TLC-simulated behaviours (NV=3) replayed in fresh and in one long-lived real "
                 "environment; random 300-operation histories (NV=6) with formula evaluations validated event by event by Trace_Env; "
                 "non-trivial = events after which the unique table grew")
-    mc_env(run, 2, 3 if t else 2, 2, "mc_env_nv2", timeout=7200, listmax=2 if t else 1)
+    # (three live handles over NV = 2 do not finish within hours: the exhaustive instances are 2 handles over
+    #  NV = 2 with counting lists up to 2 and, thorough only, 1 handle over NV = 3; depth comes from the simulated
+    #  behaviours and the recorded histories)
+    mc_env(run, 2, 2, 2, "mc_env_nv2", timeout=7200, listmax=2 if t else 1)
+    if t:
+        mc_env(run, 3, 1, 2, "mc_env_nv3_h1", timeout=7200, listmax=1)
     s2i_env(run, 3, 16, 4000 if t else 400, "beh_nv3")
     s = i2s_env(run, 6, 60 if t else 8, 300, "hist_nv6")
     if t:
